@@ -19,7 +19,7 @@ import json  # noqa: F401
 from sim import env, fingerprint as fp, gen, ops, sched
 
 PROP = 'C14'
-MODES = ('dense', 'mixed', 'purge')
+MODES = ('dense', 'mixed', 'purge', 'match')
 BOUNDS = (1, 2, 3, 5, 8, 500)
 
 # Patterns that pack the five "special" functional pseudo-classes densely (S1 of DESIGN.md).
@@ -35,7 +35,47 @@ def _seeded(rng):
     return random.Random(rng.getrandbits(64))
 
 
+def gen_match_workload(rng):
+    """Matching-dense workload: few selectors, 1-2 documents, every thread issues queries."""
+
+    nthreads = rng.choice([2, 2, 3])
+    docs = [gen.gen_doc(rng, max_size=rng.choice([10, 18, 28])) for _ in range(rng.choice([1, 1, 2]))]
+    keys = []
+    for d in docs:
+        for feat in gen.markup_features(d['markup']):
+            if rng.random() < 0.5:
+                keys.append({'pattern': rng.choice(gen.FEATURE_POOLS[feat]), 'ns': None, 'custom': None, 'flags': 0,
+                             'uses_scope': False, 'special': 0})
+    while len(keys) < 2 or (len(keys) < 5 and rng.random() < 0.5):
+        r = rng.random()
+        if r < 0.5:
+            keys.append({'pattern': rng.choice(gen.STATEFUL_POOL), 'ns': None, 'custom': None, 'flags': 0,
+                         'uses_scope': False, 'special': 0})
+        elif r < 0.65:
+            pat, ns = rng.choice(gen.XML_STATEFUL_POOL)
+            keys.append({'pattern': pat, 'ns': ns, 'custom': None, 'flags': 0, 'uses_scope': False, 'special': 0})
+        else:
+            keys.append(gen.gen_key(rng, selgen_kw={'simple': True, 'stateful_bias': 0.7, 'invalid': 0.03,
+                                                     'lexical': 0.05}, ns_bias=0.25, custom_bias=0.15))
+    keys = keys[:6]
+    programs = []
+    for _ in range(nthreads):
+        prog = []
+        for _ in range(rng.randint(1, 3)):
+            kind = rng.choice(['select', 'select', 'iselect', 'match', 'filter', 'closest', 'select_one'])
+            op = {'op': kind, 'key': rng.randrange(len(keys)), 'doc': rng.randrange(len(docs)),
+                  'target': -1 if rng.random() < 0.5 else rng.randint(0, 40),
+                  'form': rng.choice(['module', 'compiled', 'precompiled', 'precompiled'])}
+            if kind in ('select', 'iselect'):
+                op['limit'] = rng.choice([0, 0, 0, 2])
+            prog.append(op)
+        programs.append(prog)
+    return {'mode': 'match', 'keys': keys, 'docs': docs, 'programs': programs}
+
+
 def gen_workload(rng, mode):
+    if mode == 'match':
+        return gen_match_workload(rng)
     nthreads = rng.choice([2, 2, 2, 3, 3, 4])
     keys = []
     nkeys = rng.randint(2, 7)
@@ -207,6 +247,16 @@ def execute(sv, workload, policy_spec, sched_seed=0, bound=None, docs=None, coun
     if sim.deadlock:
         violation = {'oracle': 'c-deadlock', 'detail': 'all unfinished threads blocked'}
     if violation is None:
+        for t, rr in enumerate(ref):
+            for i, r in enumerate(rr):
+                if r[0] == 'exc' and r[1] == 'SimDeadlock':
+                    violation = {'oracle': 'c-deadlock', 'thread': t, 'op_index': i, 'op': workload['programs'][t][i],
+                                 'detail': 'a call made alone, after the preceding sequential calls, tried to take a '
+                                           'lock that an earlier call never released: it would never return'}
+                    break
+            if violation:
+                break
+    if violation is None:
         for t in sim.threads:
             for i, res in enumerate(t.results):
                 if res != ref[t.idx][i]:
@@ -319,6 +369,8 @@ def plan(tier):
     add('mixed', 5, 600, 25)
     add('purge', 3, 1200, 25)
     add('purge', 8, 600, 25)
+    add('match', 500, 1500, 20)
+    add('match', 2, 700, 20)
     return {'budget_s': budget, 'configs': cfgs, 'minimise_budget': 300}
 
 
